@@ -36,6 +36,14 @@ ops (every op prints exactly one line):
   `fee <m> <c> <s> <g>`                              → `<r> <c> <s>` | `panic`
   `relayf <val>`                                     → `<id>/<elected>/<r>.<c>.<s>,…` | `-`   what each message offered to `<val>` carries
                                                        (`offeredCarrying`: elected gas estimate, fees or `-`)
+  `cput <chain> <kind> <content> <sender> <assignee> <remote> <reqEst>` → `<id> <item>`   `PutMessageInQueue` on the turnstone queue of
+                                                       chain `<chain>` (0 = the queue of `put`; 1, 2 = sibling chains of the same chain type);
+                                                       ids come from the one counter all queues share
+  `cq <chain>`                                       → `<item> <item> …` | `-`   the whole queue of the chain
+  `signreq <val> <chain/id/addr/by/ref/wire,…>`      → `ok|notfound|nokey|dupkey|dupval|badsig <item> <item> …`   ONE `MsgAddMessagesSignatures` of
+                                                       validator `<val>` with one entry per list element (`signRequest`: the answer of the first failing
+                                                       entry, nothing stored unless all entries pass); one `<item>` per entry, after the request.
+                                                       Entry refs: as for `sign`, and `x<id>` = the current bytes of message `<id>` (of any chain)
   `q <op …>`                                         → first word of the op's answer
 `ref` says which bytes were signed: `c` the item's current ones, `o<k>` the k-th distinct byte string
 the item ever had (0-based, in order of first appearance), `g` unrelated bytes.
@@ -55,6 +63,8 @@ structure DState where
   bhist : List (Nat × List BBytes) := []
   /-- skyway's keyed confirmation store (key = nonce + orchestrator), next to `Batch.confirms` -/
   cstore : ConfStore := []
+  /-- turnstone queues of the sibling chains (chain ≠ 0) of the chain type; the queue of chain 0 is `s.queue` -/
+  sib : List (Nat × List Item) := []
 
 def init : DState := {}
 
@@ -383,6 +393,70 @@ def stepRaw (d : DState) (args : List String) : DState × String :=
     | _, _, _, _ => (d, "bad-op")
   | _ => (d, "bad-op")
 
+/-- the queues of all chains as the model's `MultiQ` -/
+def multiOf (d : DState) : MultiQ := { regs := d.s.regs, queues := fun c => assoc? ((0, d.s.queue) :: d.sib) c }
+
+/-- read the queues back: chain 0 and every sibling chain that has (or, `touched`, just got) a queue -/
+def ofMulti (d : DState) (w : MultiQ) (touched : List Nat := []) : DState :=
+  let chains := (d.sib.map (·.1) ++ touched.filter (fun c => c != 0 && !(d.sib.any (·.1 == c)))).eraseDups
+  { d with s := { d.s with queue := (queueOf w 0).getD d.s.queue },
+           sib := chains.filterMap (fun c => (queueOf w c).map (fun q => (c, q))) }
+
+def findAnywhere (d : DState) (id : Nat) : Option Item :=
+  match getItem d.s.queue id with
+  | some it => some it
+  | none => (d.sib.filterMap (fun p => getItem p.2 id)).head?
+
+def resolveRefOn (d : DState) (chain id : Nat) (ref : String) : Option SignBytes :=
+  if ref.startsWith "x" then
+    match parseNat? (ref.drop 1).toString with
+    | none => none
+    | some k => some ((findAnywhere d k).map bytesOf |>.getD garbage)
+  else if chain == 0 then resolveRef d id ref
+  else if ref == "c" then some (((queueOf (multiOf d) chain).bind (getItem · id)).map bytesOf |>.getD garbage)
+  else if ref == "g" then some garbage
+  else if ref.startsWith "o" then
+    match parseNat? (ref.drop 1).toString with
+    | none => none
+    | some k => some ((histOf d.hist id).getD k garbage)
+  else none
+
+def parseEntry? (d : DState) (s : String) : Option SigEntry :=
+  match s.splitOn "/" with
+  | [c, id, a, b, ref, w] => do
+    let c ← parseNat? c
+    let id ← parseNat? id
+    pure { chain := c, id := id, addr := ← parseNat? a, by_ := ← parseNat? b, for_ := ← resolveRefOn d c id ref, wire := ← parseWire? w }
+  | _ => none
+
+def showItemOn (d : DState) (chain id : Nat) : String :=
+  match (queueOf (multiOf d) chain).bind (getItem · id) with
+  | none => "-"
+  | some it => showItem it
+
+/-- the ops of the several-chains part; `none` = not one of them -/
+def stepMulti (d : DState) (args : List String) : Option (DState × String) :=
+  match args with
+  | ["cput", ch, k, c, sd, a, r, q] =>
+    match parseNat? ch, parseKind? k, parseNat? c, parseNat? sd, parseNat? a, parseNat? r, parseBool? q with
+    | some ch, some k, some c, some sd, some a, some r, some q =>
+      let w' := putOn (multiOf d) ch (d.s.nextId + 1) k c sd a r q
+      let d' := ofMulti { d with s := { d.s with nextId := d.s.nextId + 1 } } w' [ch]
+      some (d', s!"{d.s.nextId + 1} {showItemOn d' ch (d.s.nextId + 1)}")
+    | _, _, _, _, _, _, _ => some (d, "bad-op")
+  | ["cq", ch] =>
+    match parseNat? ch with
+    | some ch => some (d, join " " (((queueOf (multiOf d) ch).getD []).map showItem))
+    | none => some (d, "bad-op")
+  | ["signreq", v, es] =>
+    match parseNat? v, (Driver.splitList es).mapM (parseEntry? d) with
+    | some v, some es =>
+      let res := signRequest (multiOf d) v es
+      let d' := ofMulti d res.1
+      some (d', " ".intercalate (showSignRes res.2 :: es.map (fun e => showItemOn d' e.chain e.id)))
+    | _, _ => some (d, "bad-op")
+  | _ => none
+
 /-- `q <op …>` runs the op and prints only the first word of its answer (used when the harness can
     observe the item only after a later step). -/
 def step (d : DState) (args : List String) : DState × String :=
@@ -391,8 +465,11 @@ def step (d : DState) (args : List String) : DState × String :=
     let r := stepRaw d rest
     (track r.1, (r.2.splitOn " ").headD "")
   | _ =>
-    let r := stepRaw d args
-    (track r.1, r.2)
+    match stepMulti d args with
+    | some r => (track r.1, r.2)
+    | none =>
+      let r := stepRaw d args
+      (track r.1, r.2)
 
 /-- one event of a message life (`C13B prune hist <event> <event> …`, fields separated by `/`), as ops of
     the world machine of Props/C13:
